@@ -182,6 +182,9 @@ def run(index, tier="quick", seed=0) -> Result:
             res.ok("PAR", k)
         else:
             res.not_in_fragment.append(f"PAR {k}: mass argument provenance {sorted(getters)}")
+    from ..frame2 import check as _frame2
+    for cn_ in ("Polygon", "ConvexPolygon"):
+        _frame2(res, index, cn_, ("signed_area", "area", "perimeter", "centroid", "center", "planar_moments_inertia", "polar_moment_inertia", "inertia_tensor"))
     return res
 
 
